@@ -44,7 +44,7 @@ DIRS = ["", "private", "private/deep", "app", "app/public", "app/public/sub", "d
 PREFIXES = ["/", "/private/", "/private", "/private/deep/", "/app/", "/app", "/app/public/", "/app/public/sub/",
             "/docs/", "/docs/inner/", "/pub.gmi", "/private/secret.gmi", "/application/", "/priv\u00e9/", "/priv\u00e9/secret.gmi", "/club/Index.gmi", "/club/Index.gmi"]
 SENT_RE = re.compile(r"RESOURCE<([^>]*)>")
-CERTS = [None, "ec-a", "rsa-a", "ed-a", "twin-a", "twin-b", "chain:ec-b:ec-a", "chain:ec-b:rsa-a"]
+CERTS = [None, "ec-a", "rsa-a", "ed-a", "twin-a", "twin-b", "chain:ec-b:ec-a", "chain:ec-b:rsa-a", "ec-nocn", "ec-nosubject"]
 
 _capsule = None
 
